@@ -483,6 +483,14 @@ class LinExpr(object):
     def atoms(self):
         return [a for a, _ in self.t]
 
+    def subst(self, atom, value):
+        """this expression with `atom` replaced by the integer `value`"""
+        d = dict(self.t)
+        if atom not in d:
+            return self
+        k = d.pop(atom)
+        return LinExpr(d, self.c + k * Fraction(value))
+
     def __repr__(self):
         parts = []
         for a, k in self.t:
@@ -691,6 +699,17 @@ def join_av(a, b):
         for k in set(a.dvals) | set(b.dvals):
             dvals[k] = join_av(a.dvals.get(k), b.dvals.get(k))
     sym = a.sym if (a.sym is not None and a.sym == b.sym) else None
+    vset = None
+    if kind in (K_SCALAR, K_BOOL) and not same_const:
+        def members(x):
+            if x.has_const() and isinstance(x.const, (int, bool)) and -4 <= int(x.const) <= 4:
+                return frozenset([int(x.const)])
+            if isinstance(x.note, tuple) and x.note and x.note[0] == "in":
+                return x.note[1]
+            return None
+        ma, mb = members(a), members(b)
+        if ma is not None and mb is not None and len(ma | mb) <= 4:
+            vset = ("in", ma | mb)            # a small integer known to be one of a few values (an offset that is 0 or 1)
     if kind == K_LIST and (a.items == () or b.items == ()) and a.note != "range" and b.note != "range":
         # an empty list is trivially ascending: the join keeps the other side's order facts
         full = b if a.items == () else a
@@ -708,7 +727,10 @@ def join_av(a, b):
               dmay=(a.dmay | b.dmay) if (a.dmay is not None and b.dmay is not None) else None,
               dvals=dvals, ref=a.ref if a.ref == b.ref else None, ext=a.ext if a.ext == b.ext else None,
               rel=a.rel if a.rel == b.rel else None, parts=a.parts if a.parts == b.parts else None,
-              note=a.note if a.note == b.note else None)
+              note=vset if (vset is not None and (a.note == b.note or a.note is None or b.note is None) and
+                            not isinstance(a.note, tuple) and not isinstance(b.note, tuple)) or
+              (vset is not None and all(isinstance(x.note, tuple) and x.note[:1] == ("in",) or x.has_const() for x in (a, b)))
+              else (a.note if a.note == b.note else None))
 
 
 def weaken_av(v, pc):
